@@ -225,7 +225,7 @@ def main(pid="C04", rep=None, finish=True):
                         # interpret: the connection may be dropped ("" - what the tree does), or the chain is consulted
                         # with that certificate's fingerprint (not on the list: 61; any certificate will do: served or 44)
                         # - the one thing that cannot happen is a verdict for a client that presented NO certificate (60)
-                        for pth, ok in (("prot", ("", "61")), ("any", ("", "20", "44", "51"))):
+                        for pth, ok in (("prot", ("", "61", "62")), ("any", ("", "20", "44", "51", "62"))):      # 62: refused as a certificate that is not valid
                             got = asm.request("a", pth, "cw")
                             steps += 1
                             if pid != "C04":
